@@ -12,6 +12,8 @@ GROUPS.append(G("ieee_as_fpclassify", IEEE, "h_as_fpclassify", enforce=["as_fpcl
 MOT = "harness/C09/h_motpseudo.c"
 for f in ["EnterByte", "EnterWord", "EnterLWord", "EnterQWord", "EnterIEEE2", "EnterIEEE4", "EnterIEEE8", "EnterIEEE10"]:
     GROUPS.append(G("mot_" + f, MOT, "h_" + f, enforce=[f], link=["bpemu.c"], stubs=["stubs/gerr.c"], unwind=20, timeout=600))
+GROUPS.append(G("mot_SetRepCodeLen", MOT, "h_SetRepCodeLen", enforce=[], link=["bpemu.c"], stubs=["stubs/gerr.c"], unwind=6, timeout=600, dfcc=False, drop_unused=True, object_bits=12,
+                functions=["SetRepCodeLen"], solver="z3"))
 DC_SIZES = [("8", "eSymbolSize8Bit", "quick"), ("16", "eSymbolSize16Bit", "quick"), ("24", "eSymbolSize24Bit", "thorough"),
             ("32", "eSymbolSize32Bit", "quick"), ("64", "eSymbolSize64Bit", "thorough"), ("f16", "eSymbolSizeFloat16Bit", "quick"),
             ("f32", "eSymbolSizeFloat32Bit", "thorough"), ("f64", "eSymbolSizeFloat64Bit", "thorough"), ("f96", "eSymbolSizeFloat96Bit", "quick")]
